@@ -267,7 +267,7 @@ theorem errStep_safe {c : ErrCfg} (hs : errCfgSafe c = true) :
   | none => simp [hg] at hs
   | some n =>
     simp [hg] at hs
-    obtain ⟨⟨⟨⟨hb, hc⟩, hn⟩, ha⟩, hh, h1⟩ := hs
+    obtain ⟨⟨⟨⟨⟨hb, hc⟩, hn⟩, hw⟩, ha⟩, hh, h1⟩ := hs
     refine ⟨n, rfl, hh, ?_⟩
     intro s e hi
     obtain ⟨hcount, hused⟩ := hi
@@ -277,17 +277,20 @@ theorem errStep_safe {c : ErrCfg} (hs : errCfgSafe c = true) :
       obtain ⟨u1, hp1, hu1⟩ := errPrint_bound hb hc ha hused m.prefixLen
       obtain ⟨u2, hp2, hu2⟩ := errPrint_bound hb hc ha hu1 m.bodyLen
       have hidx : ¬ c.heapSize ≤ s.count + 1 := by omega
-      have hu3 : errNext c u2 ≤ c.span := by
+      have hnext : ∃ u3, errNext c u2 = some u3 ∧ u3 ≤ c.span := by
         unfold errNext
         by_cases he : u2 = c.span
-        · simp [hn, he]
-        · simp [hn, he]; omega
-      simp only [errStep, hidx, if_false, hp1, hp2]
-      cases hfin : (m.fatal || spaceHit c (errNext c u2) || countHit c (s.count + 1)) with
+        · exact ⟨u2, by simp [hn, he], by omega⟩
+        · have hfit : ¬ c.allocated < u2 + c.nextWrites := by omega
+          refine ⟨u2 + max 1 c.nextWrites, by simp [hn, he, hfit], ?_⟩
+          rw [hw]; simp; omega
+      obtain ⟨u3, hnx, hu3⟩ := hnext
+      simp only [errStep, hidx, if_false, hp1, hp2, hnx]
+      cases hfin : (m.fatal || spaceHit c u3 || countHit c (s.count + 1)) with
       | true => right; simp
       | false =>
         left
-        refine ⟨⟨errNext c u2, s.count + 1⟩, by simp, ?_, hu3⟩
+        refine ⟨⟨u3, s.count + 1⟩, by simp, ?_, hu3⟩
         have hne : countHit c (s.count + 1) = false := by
           cases hq : countHit c (s.count + 1) with
           | false => rfl
